@@ -247,16 +247,37 @@ def check_qlm(run, pkg, weighted):
     nb = ("sub", NL, ("tuple", (ci, ("bin", "+", cj, C(1)))))
     nb2 = ("sub", NL, ("tuple", (ci, ("bin", "+", C(1), cj))))
     fromQ = src[0] == "sub" and src[1] == Q
-    oksrc = tri(eqv(ce.data["target"][2], ci), True if (src[0] == "sub" and src[1] == q_final) else (False if fromQ else None), eqv(src[2], nb) if src[0] == "sub" else None)
+    # the neighbour column and the inner loop's range are judged together: column = j + off for j in range(lo, hi) must sweep
+    # exactly columns 1 .. cn_i
+    okcol = None
+    if src[0] == "sub" and src[2][0] == "sub" and src[2][1] == NL and src[2][2][0] == "tuple" and len(src[2][2][1]) == 2 and \
+            Lcj.iter[0] == "call" and Lcj.iter[1] == "builtins.range" and 1 <= len(Lcj.iter[2]) <= 2:
+        rowi, colj = src[2][2][1]
+        lo_t, hi_t = (C(0), Lcj.iter[2][0]) if len(Lcj.iter[2]) == 1 else Lcj.iter[2]
+        try:
+            jS, cnS = sp.Symbol("j", integer=True), sp.Symbol("cn", integer=True, nonnegative=True)
+            cnt = nbr_count(NL, ci)
+            tr_ = S.Translator(lambda y: jS if y == cj else (cnS if y == cnt else None))
+            tr_.ufuncs = False
+            col_e, lo_e, hi_e = tr_.tr(colj), tr_.tr(lo_t), tr_.tr(hi_t)
+            if not tr_.atoms and sp.expand(col_e - jS).free_symbols == set():
+                off = sp.expand(col_e - jS)
+                okcol = tri(eqv(rowi, ci), bool(sp.expand(lo_e + off - 1) == 0 and sp.expand(hi_e + off - (cnS + 1)) == 0))
+        except Exception:  # noqa
+            okcol = None
+    if okcol is None and src[0] == "sub":
+        okcol = True if eqv(src[2], nb) is True else None
+    oksrc = tri(eqv(ce.data["target"][2], ci), True if (src[0] == "sub" and src[1] == q_final) else (False if fromQ else None), okcol)
     run.ob("R-ALG", fq, f"{v}:coarse:sum", oksrc, "adds the *local* vector of neighbour j (column j + 1 of row i) to particle i", key_of(ce)[:100],
            witness=None if oksrc else ("neighbours' partially coarse-grained vectors are added: the result depends on particle order" if fromQ else "wrong neighbour column / wrong source"), loc=loc_of(it, ce), sound=True)
-    okdom = tri_lazy(lambda: eqv(Lci.iter, ("call", "builtins.range", (("attr", snap, "nparticle"),), ())), lambda: eqv(Lcj.iter, ("call", "builtins.range", (nbr_count(NL, ci),), ())))
+    okdom = tri_lazy(lambda: eqv(Lci.iter, ("call", "builtins.range", (("attr", snap, "nparticle"),), ())),
+                     lambda: (True if okcol is True else eqv(Lcj.iter, ("call", "builtins.range", (nbr_count(NL, ci),), ()))))
     run.ob("R-LOOPDOM", fq, f"{v}:coarse:domain", okdom, "all particles and all their cn_i neighbours enter the coarse-graining sum", f"{show(Lci.iter)[:40]} x {show(Lcj.iter)[:60]}",
            witness=None if okdom else "neighbours skipped", loc=loc_of(it, ce), sound=True)
     lxc = [e for e in it.events if e.kind == "loop_exit" and e.data["loop"] == Lci.id]
     fin = [e for e in it.events if e.kind == "assign" and e.data["value"][0] == "bin" and e.data["value"][1] == "/" and e.data["value"][2] == Q and set(e.loops) == {Lf.id}] + \
           [e for e in it.events if e.kind == "aug" and e.data["op"] == "/" and e.data["old"] == Q and set(e.loops) == {Lf.id}]
-    okdiv = False
+    okdiv = None          # a division in another form (helper return, expression in place) is not known to be wrong
     if len(fin) == 1 and lxc and fin[0].seq > lxc[0].seq:
         den = fin[0].data["value"][3] if fin[0].kind == "assign" else fin[0].data["value"]
         okdiv = tri_lazy(lambda: eqv(col_bcast(den), ("bin", "+", C(1), cn_col), ("bin", "+", cn_col, C(1))), lambda: (True if (den != col_bcast(den)) else None))
